@@ -43,7 +43,7 @@ import (
 const (
 	volBlocks  = 32
 	volSectors = 32 // number of write-id slots (historical name: one sector per id in dense layout)
-	rpcTimeout = 700 * time.Millisecond
+	rpcTimeout = 1500 * time.Millisecond // (long enough for a starved machine: a spurious time-out is a fault the scenario did not inject)
 )
 
 // ---------------------------------------------------------------- stub frontend
@@ -522,6 +522,18 @@ func (r *run) resetTouched() {
 
 // expected number of monitor goroutines that must have reached the gate:
 // every backend instance that is no longer attached in good standing
+// what a replica process does before it registers or asks to be added (sync.Task
+// checkAndResetFailedRebuild): a rebuilding flag left by an interrupted or refused rebuild is cleared
+func (r *run) resetFailedRebuild(n *node) {
+	st, info := n.s.Status()
+	if st == replica.Closed && info.Rebuilding {
+		if n.s.Open() == nil {
+			n.s.SetRebuilding(false)
+			n.s.Close()
+		}
+	}
+}
+
 func (r *run) waitMonitors() {
 	deadline := time.Now().Add(6 * time.Second)
 	for {
@@ -875,6 +887,7 @@ func (r *run) exec1(op Op) {
 				}()
 			}
 		}
+		r.resetFailedRebuild(n)
 		mark := r.fac.count(n.addr())
 		err := c.Start(n.addr())
 		if err == nil || !strings.Contains(err.Error(), "clone status returned error") {
@@ -905,6 +918,7 @@ func (r *run) exec1(op Op) {
 		}
 		reached := false
 		r.fac.onCreate = func(address string) { reached = true }
+		r.resetFailedRebuild(n)
 		mark := r.fac.count(n.addr())
 		err := c.AddReplica(n.addr())
 		r.fac.retract(n.addr(), mark, err)
@@ -1230,6 +1244,7 @@ func (r *run) exec1(op Op) {
 			}
 		}()
 		time.Sleep(2 * time.Millisecond)
+		r.resetFailedRebuild(n)
 		mark := r.fac.count(n.addr())
 		err := c.AddReplica(n.addr())
 		r.fac.retract(n.addr(), mark, err)
@@ -1309,6 +1324,7 @@ func (r *run) exec1(op Op) {
 				<-g.release
 			}
 		}
+		r.resetFailedRebuild(n)
 		markB := r.fac.count(want)
 		go func() { g.done <- c.AddReplica(want) }()
 		select {
